@@ -204,6 +204,16 @@ func callsOutside(decl antlr.Tree, params antlr.Tree) bool {
 	if holdsCall(params) {
 		return true
 	}
+	// anywhere else in the declaration but the body (an annotation inside the return type, a throws clause)
+	for i := 0; i < decl.GetChildCount(); i++ {
+		switch decl.GetChild(i).(type) {
+		case *parser.MethodBodyContext, *parser.BlockContext:
+			continue
+		}
+		if holdsCall(decl.GetChild(i)) {
+			return true
+		}
+	}
 	// the modifiers are siblings of the memberDeclaration / interfaceMemberDeclaration
 	for n := decl.GetParent(); n != nil; n = n.GetParent() {
 		switch n.(type) {
